@@ -29,5 +29,8 @@ import (
 // BankKeeperFee defines the behaviors the Fee action
 // expects from the bank module.
 type BankKeeperFee interface {
+	// Queries
+	BlockedAddr(addr sdk.AccAddress) bool
+	// Txs
 	SendCoins(ctx context.Context, fromAddr, toAddr sdk.AccAddress, amt sdk.Coins) error
 }
